@@ -909,7 +909,8 @@ def _factorize_single(by, expect, *, sort: bool, reindex: bool) -> tuple[pd.Inde
         # group_idx[nanmask] = nan_sentinel assignment later
         # this is important in shared-memory parallelism with dask
         # TODO: figure out how to avoid this
-        idx = flat.copy()
+        # (unsigned labels cannot hold the -1 code of dropped labels)
+        idx = flat.astype(np.intp) if flat.dtype.kind == "u" else flat.copy()
         found_groups = cast(pd.Index, expect)
         # TODO: fix by using masked integers
         if len(expect) > 0:
